@@ -496,7 +496,7 @@ def SENS(K=0, horizon=5, interval=1, cap=2, n=1, ocap=None, callbacks=2, cms_twi
     if two_cms:
         devs.append(cms('Cb', ['O']))           # a second CMS watching only ONE of the sensors the first one watches
     if ops is None:
-        ops = [('bump', 'o1'), ('fail', 'M1', 0), ('wo', 'M1', 'x'), ('restore', 'M1')]
+        ops = [('bump', 'o1'), ('fail', 'M1', 0), ('wo', 'M1', 'x'), ('restore', 'M1'), ('addsensor', 'C', 'P')]
     nm = (f'SENS[i{interval},c{cap},n{n},oc{ocap},cb{callbacks}{",2nd" + str(second) if second else ""}'
           f'{",ph=" + placeholder if placeholder else ""}{",2cms" if two_cms else ""},K{K}]')
     return spec(nm, devs, horizon, ops, K)
@@ -534,6 +534,7 @@ def LATE(K=1, horizon=5, ops=None, creates=None, name=''):
         ops = [['create'] + c for c in creates]
     s = spec(f'LATE{name}[K{K}]', devs, horizon, ops, K)
     s['late'] = LATE_DEVICES
+    s['id_offset'] = 300          # asset ids above CPython's small-int cache
     return s
 
 
